@@ -336,7 +336,7 @@ fn install_hooks() {
 fn main() {
     let args: Vec<String> = std::env::args().collect();
     install_hooks();
-    let timeout_ms: u64 = std::env::var("VERIF_OP_TIMEOUT_MS").ok().and_then(|s| s.parse().ok()).unwrap_or(4000);
+    let timeout_ms: u64 = std::env::var("VERIF_OP_TIMEOUT_MS").ok().and_then(|s| s.parse().ok()).unwrap_or(10000);
     match args.get(1).map(|s| s.as_str()) {
         Some("run") => {
             // run <mode> <seed> <start> <count> <tier>
